@@ -17,6 +17,18 @@ func (r *Run) Do(op Op) {
 	if r.Poisoned {
 		return
 	}
+	switch op.K {
+	case "CreateColl", "DropColl", "Purge", "Reopen", "Stable", "Sync", "GhostWrite", "OtherBucketWrite":
+	default:
+		if op.C >= 0 && op.C < len(r.W.Model.Colls) && r.W.Model.Colls[op.C].Dropped {
+			// addressed to a collection that does not exist at this point (only reachable in
+			// minimised replays, where the step that created it was removed): looking it up would
+			// create it
+			r.nDo++
+			r.Trace = append(r.Trace, StepTrace{Op: op, Outcome: "no-such-collection"})
+			return
+		}
+	}
 	r.step = r.nDo
 	r.nDo++
 	r.curOp = op
